@@ -4,6 +4,8 @@
 //
 // Case line (sections separated by '|'):
 //   <n> <k> | <valid mask or -> | <scripts e:op,op;e:op or -> | <ops op,op,... or ->
+//   op L t1 d m c = one event-loop iteration through the REAL Thread::process_events (clock t1,
+//   call_events takes d and runs script c, the thread's own next_timeout() is m).
 // Output: one token per top-level op, then '| S[e:due ...] H[time:entry|- ...]'.
 #include "config.h"
 #include "common/util.h"
@@ -12,8 +14,13 @@
 #include <functional>
 #include <memory>
 
+#include <time.h>
+
 #include "torrent/exceptions.h"
 #include "torrent/system/scheduler.h"
+#include "torrent/system/thread.h"
+#include "torrent/system/poll.h"
+#include "torrent/net/resolver.h"
 
 using namespace ltv;
 using torrent::system::ExternalScheduler;
@@ -22,10 +29,42 @@ using us = std::chrono::microseconds;
 
 struct fuel_exhausted {};
 
+// Controlled clock. Thread::process_events() reads utils::time_since_epoch(), an inline wrapper of
+// std::chrono::system_clock::now(); that function lives in libstdc++.so, so this definition in the
+// executable takes its place for the whole process (library objects included). While no loop
+// iteration is running it reports the real time.
+static bool    g_vclock_on = false;
+static int64_t g_vclock_us = 0;
+
+std::chrono::system_clock::time_point std::chrono::system_clock::now() noexcept {
+  if (g_vclock_on)
+    return time_point(std::chrono::duration_cast<duration>(std::chrono::microseconds(g_vclock_us)));
+  timespec ts;
+  clock_gettime(CLOCK_REALTIME, &ts);
+  return time_point(std::chrono::duration_cast<duration>(std::chrono::seconds(ts.tv_sec) + std::chrono::nanoseconds(ts.tv_nsec)));
+}
+
+struct Run;
+
+// A real torrent::system::Thread; only the two pure virtuals are supplied by the harness.
+class LoopThread : public torrent::system::Thread {
+public:
+  const char* name() const override { return "ltv-c19"; }
+  Run*        run{};
+  int64_t     busy_us{};
+  int         script{-1};
+  int64_t     own_timeout{};
+
+  void                      call_events() override;
+  std::chrono::microseconds next_timeout() override { return us(own_timeout); }
+};
+
 struct Op {
   char    kind;
   int     e{};
   int64_t t{};
+  int64_t d{};
+  int64_t m{};
 };
 
 static Op parse_op(const std::string& s) {
@@ -38,6 +77,10 @@ static Op parse_op(const std::string& s) {
     o.e = std::stoi(t.at(1)); o.t = std::stoll(t.at(2)); break;
   case 'E': o.e = std::stoi(t.at(1)); break;
   case 'N': case 'T': case 'P': o.t = std::stoll(t.at(1)); break;
+  case 'L':
+    o.t = std::stoll(t.at(1)); o.d = std::stoll(t.at(2)); o.m = std::stoll(t.at(3));
+    o.e = t.at(4) == "-" ? -1 : std::stoi(t.at(4));
+    break;
   default: throw std::runtime_error("op");
   }
   return o;
@@ -63,7 +106,10 @@ static std::vector<std::string> split_list(const std::string& s0, char c) {
 }
 
 struct Run {
-  ExternalScheduler                            sched;
+  ExternalScheduler                            own_sched;
+  std::unique_ptr<LoopThread>                  thread;   // only for cases with L ops
+  torrent::system::Scheduler*                  schedp{};
+  torrent::system::Scheduler&                  sched_ref() { return *schedp; }
   std::vector<std::unique_ptr<SchedulerEntry>> entries;
   std::vector<std::vector<Op>>                 scripts;
   std::vector<std::string>*                    items{};  // log of the perform in progress
@@ -75,15 +121,15 @@ struct Run {
     *is_next = false;
     SchedulerEntry* en = (o.kind == 'N' || o.kind == 'T') ? nullptr : entries.at(o.e).get();
     switch (o.kind) {
-    case 'W': sched.wait_until(en, us(o.t)); break;
-    case 'F': sched.wait_for(en, us(o.t)); break;
-    case 'C': sched.wait_for_ceil_seconds(en, us(o.t)); break;
-    case 'U': sched.update_wait_until(en, us(o.t)); break;
-    case 'G': sched.update_wait_for(en, us(o.t)); break;
-    case 'D': sched.update_wait_for_ceil_seconds(en, us(o.t)); break;
-    case 'E': sched.erase(en); break;
-    case 'N': *is_next = true; *next = sched.next_timeout(us(o.t)).count(); break;
-    case 'T': sched.external_set_cached_time(us(o.t)); break;
+    case 'W': sched_ref().wait_until(en, us(o.t)); break;
+    case 'F': sched_ref().wait_for(en, us(o.t)); break;
+    case 'C': sched_ref().wait_for_ceil_seconds(en, us(o.t)); break;
+    case 'U': sched_ref().update_wait_until(en, us(o.t)); break;
+    case 'G': sched_ref().update_wait_for(en, us(o.t)); break;
+    case 'D': sched_ref().update_wait_for_ceil_seconds(en, us(o.t)); break;
+    case 'E': sched_ref().erase(en); break;
+    case 'N': *is_next = true; *next = sched_ref().next_timeout(us(o.t)).count(); break;
+    case 'T': sched_ref().set_cached_time(us(o.t)); break;
     default: throw std::runtime_error("op in script");
     }
   }
@@ -98,6 +144,16 @@ struct Run {
     }
   }
 };
+
+void LoopThread::call_events() {
+  g_vclock_us += busy_us;  // the iteration's work takes busy_us of wall time
+  if (script >= 0)
+    for (auto& o : run->scripts.at(script)) {
+      bool is_next; int64_t next;
+      run->basic(o, &is_next, &next);
+      if (is_next) run->items->push_back("N=" + std::to_string(next));
+    }
+}
 
 static std::string run_case(const std::string& line) {
   std::vector<std::string> sec;
@@ -135,15 +191,57 @@ static std::string run_case(const std::string& line) {
   std::vector<Op> ops;
   for (auto& o : split_list(sec[3], ',')) ops.push_back(parse_op(o));
 
+  bool has_loop = false;
+  for (auto& o : ops) has_loop |= o.kind == 'L';
+  if (has_loop) {
+    r.thread = std::make_unique<LoopThread>();
+    r.thread->run = &r;
+    r.schedp = r.thread->m_scheduler.get();
+    r.schedp->set_cached_time(us(0));  // the model starts with m_cached_time = 0
+  } else {
+    r.schedp = &r.own_sched;
+  }
+
   std::string out;
   for (auto& o : ops) {
     if (!out.empty()) out += ' ';
-    if (o.kind == 'P') {
+    if (o.kind == 'L') {
+      std::vector<std::string> items;
+      r.items = &items;
+      r.fires = 0;
+      r.thread->busy_us = o.d;
+      r.thread->script = o.e;
+      r.thread->own_timeout = o.m;
+      g_vclock_us = o.t;
+      g_vclock_on = true;
+      bool ok = false;
+      try {
+        r.thread->process_events();   // the REAL Thread::process_events
+        ok = true;
+      } catch (torrent::internal_error&) {
+        items.push_back("ERR:internal");
+      } catch (fuel_exhausted&) {
+        items.push_back("FUEL");
+      }
+      if (ok) {
+        // Thread::event_loop() between process_events() and Poll::do_poll(timeout):
+        auto timeout = std::max(r.thread->next_timeout(), us(0));
+        timeout = r.thread->m_scheduler->next_timeout(timeout);
+        items.push_back("th=" + std::to_string(r.thread->m_cached_time.load().count()) +
+                        " sc=" + std::to_string(r.thread->m_scheduler->m_cached_time.count()) +
+                        " r=" + std::to_string(timeout.count()));
+      }
+      g_vclock_on = false;
+      r.items = nullptr;
+      out += "L[";
+      for (size_t i = 0; i < items.size(); i++) { if (i) out += ' '; out += items[i]; }
+      out += "]";
+    } else if (o.kind == 'P') {
       std::vector<std::string> items;
       r.items = &items;
       r.fires = 0;
       try {
-        r.sched.external_perform(us(o.t));
+        r.sched_ref().perform(us(o.t));
       } catch (torrent::internal_error&) {
         items.push_back("ERR:internal");
       } catch (fuel_exhausted&) {
@@ -174,7 +272,7 @@ static std::string run_case(const std::string& line) {
     }
   out += "] H[";
   first = true;
-  for (auto& h : r.sched.m_heap) {
+  for (auto& h : r.sched_ref().m_heap) {
     if (!first) out += ' ';
     first = false;
     out += std::to_string(h->time.count()) + ":";
@@ -188,7 +286,7 @@ static std::string run_case(const std::string& line) {
   out += "]";
   // ~SchedulerEntry asserts !is_scheduled(): unschedule through the public API first
   for (int e = 0; e < n; e++)
-    if (r.entries[e]->is_scheduled()) r.sched.erase(r.entries[e].get());
+    if (r.entries[e]->is_scheduled()) r.sched_ref().erase(r.entries[e].get());
   return out;
 }
 
